@@ -281,9 +281,10 @@ class LockAnalysis:
            there is one, so that the temporary destructor can find it)
     inherited: lock values held by the caller for the whole body (lambdas)."""
 
-    def __init__(self, eng, f, inherited=None, entry_state=None):
+    def __init__(self, eng, f, inherited=None, entry_state=None, assume=None):
         self.eng = eng
         self.f = f
+        self.assume = dict(assume or {})     # immutable boolean members with an assumed value: {'this.enabled': True}
         self.inherited = list(inherited or [])
         self.before = {}      # pos -> state dict
         self.block_in = {}
@@ -614,6 +615,22 @@ class LockAnalysis:
                     if v is not None and v.st == MAYBE:
                         stt[key] = LockVal(v.mutex, v.mode, new)
 
+    def _infeasible_succ(self, blk):
+        """index of the successor that contradicts an assumed member value, or None"""
+        if not self.assume or not blk.term or len(blk.succs) != 2 or not blk.term.get("cond"):
+            return None
+        f = self.f
+        c = unwrap(f, f.s(blk.term["cond"]))
+        neg = False
+        while c is not None and c["k"] == "UnaryOperator" and c["op"] == "!":
+            neg = not neg
+            c = unwrap(f, f.children(c)[0])
+        p = path(f, c) if c is not None else None
+        if p in self.assume:
+            val = self.assume[p] != neg       # value of the whole condition
+            return 1 if val else 0
+        return None
+
     def _run(self):
         f = self.f
         if f.entry is None:
@@ -639,8 +656,9 @@ class LockAnalysis:
                 state = self.transfer(pos, state)
             self.block_out[b] = dict(state)
             outs = self.refine(blk, state)
+            dead = self._infeasible_succ(blk)
             for idx, s in enumerate(blk.succs):
-                if s is None:
+                if s is None or idx == dead:
                     continue
                 new = outs[idx] if idx < len(outs) else state
                 old = self.block_in.get(s)
